@@ -1,3 +1,53 @@
-From Cache Require Import Base Failover.
-Theorem C04_placeholder : True. Proof. exact I. Qed.
-Print Assumptions C04_placeholder.
+(* C04 — Get always completes and key locks are always released. Statements only. *)
+From Cache Require Import Base Failover FailoverProofs.
+
+(* When every Get and every background build has finished — whatever happened before: failing
+   builders, rejected backend writes, faults, any interleaving — no key lock is registered and every
+   key lock that ever existed is closed (nobody can be left waiting on it). *)
+Theorem C04_quiescent_unlocked : forall fe nilb c ls s,
+  frun fe nilb c f0 ls = Some s -> all_done s ->
+  keyLocks s = ∅ /\ forall id x, kls s !! id = Some x -> kl_closed x = true.
+Proof. exact quiescent_unlocked. Qed.
+Print Assumptions C04_quiescent_unlocked.
+
+(* No deadlock: in every reachable state in which something is unfinished, some thread can take its
+   next step whatever the oracle answers (call-outs return): a waiter whose lock is closed returns,
+   otherwise the lock's owner exists, is not waiting and can move. *)
+Theorem C04_no_deadlock : forall fe nilb c ls s o,
+  frun fe nilb c f0 ls = Some s -> ~ all_done s ->
+  exists t s', fstep fe nilb c s (LStep t o) = Some s'.
+Proof. exact no_deadlock. Qed.
+Print Assumptions C04_no_deadlock.
+
+(* Bounded: every step of a thread strictly decreases a measure, a new Get adds exactly 30 to it:
+   once its call-outs return, a Get and its background build finish within 30 steps of their own. *)
+Theorem C04_step_decreases : forall fe nilb c s t o s',
+  fstep fe nilb c s (LStep t o) = Some s' -> (measure s' < measure s)%nat.
+Proof. exact fstep_measure. Qed.
+Print Assumptions C04_step_decreases.
+
+Theorem C04_steps_bounded : forall fe nilb c ls s s',
+  forallb is_step ls = true -> frun fe nilb c s ls = Some s' -> (length ls + measure s' <= measure s)%nat.
+Proof. exact steps_bounded. Qed.
+Print Assumptions C04_steps_bounded.
+
+Theorem C04_new_get_costs_30 : forall fe nilb c s t k skip cell s',
+  fstep fe nilb c s (LSpawn t k skip cell) = Some s' -> measure s' = (30 + measure s)%nat.
+Proof. exact spawn_measure. Qed.
+Print Assumptions C04_new_get_costs_30.
+
+(* After quiescence a later Get for the key is an owner again: it finds no lock. *)
+Theorem C04_rebuild_possible : forall fe nilb c ls s,
+  frun fe nilb c f0 ls = Some s -> all_done s -> forall k, keyLocks s !! k = None.
+Proof. intros fe nilb c ls s H Hd k. rewrite (proj1 (quiescent_unlocked fe nilb c ls s H Hd)). apply lookup_empty. Qed.
+Print Assumptions C04_rebuild_possible.
+
+Example C04_nonvacuous :
+  let c := mkFcfg Generic true true false 0 (20 * sec) minute false false false in
+  let o := mkOrc 1000 RMiss None (inr 3) [] 2000 in
+  match frun_x c f0 ([LSpawn 1%N [1%N] false None] ++ repeat (LStep 1%N o) 12) with
+  | Some s => map_to_list (keyLocks s) = [] /\ option_map t_res (threads s !! 1%N) = Some (0, Some (EOther 3))
+              /\ measure s = 0%nat
+  | None => False
+  end.
+Proof. vm_compute. repeat split; reflexivity. Qed.
